@@ -1,6 +1,6 @@
 (* C18 -- Identifier constructors admit only [A-Za-z][-_A-Za-z0-9]*, keep the constant prefix.
    This file holds only the property theorems; proofs are in proofs/IdentFacts.v. *)
-From V Require Import lib.Base model.Ident proofs.IdentFacts.
+From V Require Import lib.Base model.Ident spec.IdentSpec proofs.IdentFacts.
 
 Theorem C18_const : forall v r,
   identifier_from_constant v = Some r -> r = v /\ ident_spec r = true.
